@@ -2,7 +2,7 @@
 """Refreshes the generated blocks of DESIGN.md (between <!-- BEGIN:x --> and <!-- END:x --> markers) from the files
 they summarise, so that the document cannot drift from the machinery:
 
-  findings        known_findings.json (+ known.d/*.json)          -> table of section 3
+  findings        known_findings.json          -> table of section 3
   asbuilt:<ID>    notes/<ID>.md (sections Deviations, Blind spots) -> "As built" block at the top of each 4.<ID>
   sensitivity     notes/sensitivity.tsv                            -> table of section 10.1
   seeded          seeded/*/meta.json                               -> table of section 10.2
